@@ -738,7 +738,7 @@ def _rand_case_with(rng, fnames):
 class C19(Property):
     id = "C19"
     title = "markup options resolve tag > block > generator > default and unwind on end()"
-    proof_module = "Proofs.C19"
+    proof_module = "Proofs.C19Writes"     # top of the chain C19 <- C19Exact <- C19Filters <- C19Writes
     theorems = [
         "Flatland.C19.Proofs.toggle_resolution",
         "Flatland.C19.Proofs.C19_full_fails",
@@ -771,10 +771,51 @@ class C19(Property):
         "Flatland.C19.Proofs.transformValue_skips",
         "Flatland.C19.Proofs.label_value_dropped",
         "Flatland.C19.Proofs.afterFailedTag_ctx",
+        # round h9 — exact resolution (no noShadowingAuto), code vs statement as an iff
+        "Flatland.C19.Proofs.toggle_resolution_exact",
+        "Flatland.C19.Proofs.toggle_resolution_code",
+        "Flatland.C19.Proofs.code_ne_doc_iff",
+        "Flatland.C19.Proofs.toggle_doc_iff",
+        "Flatland.C19.Proofs.toggle_resolution_doc",
+        "Flatland.C19.Proofs.noShadowingAuto_false_iff",
+        "Flatland.C19.Proofs.C19_full_fails_of_iff",
+        "Flatland.C19.Proofs.setting_in_force",
+        # filters
+        "Flatland.C19.Proofs.runFilters_eq_foldlM",
+        "Flatland.C19.Proofs.transformFiltersF_decision",
+        "Flatland.C19.Proofs.filters_resolution",
+        "Flatland.C19.Proofs.optionsF_never_emitted",
+        "Flatland.C19.Proofs.stepF_gen",
+        "Flatland.C19.Proofs.runF_gen",
+        "Flatland.C19.Proofs.transformF_no_filters",
+        # decision table + tabindex in full
+        "Flatland.C19.Proofs.applies_table",
+        "Flatland.C19.Proofs.transformName_table",
+        "Flatland.C19.Proofs.transformDomid_table_skips",
+        "Flatland.C19.Proofs.transformDomid_table_writes",
+        "Flatland.C19.Proofs.transformFor_table_skips",
+        "Flatland.C19.Proofs.transformFor_table_writes",
+        "Flatland.C19.Proofs.transformValue_table_skips",
+        "Flatland.C19.Proofs.transformTabindex_exact",
+        "Flatland.C19.Proofs.handOut_twice",
     ]
-    generated_obligations = ["Flatland.C19.Proofs.defaults_ok"]
+    generated_obligations = ["Flatland.C19.Proofs.defaults_ok", "Flatland.C19.Proofs.autoTags_doc",
+                             "Flatland.C19.Proofs.filters_default_ok"]
     level_text = "proof"
-    level_note = ("partial: (1) the resolution theorem needs noShadowingAuto — now exactly the condition under which code and "
+    level_note = ("round h9: (0) toggle_resolution_exact — _pop_toggle = codeRule(tag option, LAST explicit assignment among the "
+                  "open levels) for ALL histories and stored values, no side condition; toggle_doc_iff: the code returns the "
+                  "statement's decision iff not (tag silent and ShadowingAuto) — KF-C19-a as an exact class, C19_full_fails_of_iff "
+                  "an instance; transform_filters is inside the model (C19Filters.lean) and compared with real callables: "
+                  "runFilters_eq_foldlM (order, tags gating, threading), filters_resolution (run iff the toggle resolves on, list = "
+                  "last explicit `filters`), optionsF_never_emitted (whole pipeline incl. filters: an option name survives only if a "
+                  "running filter writes it), stepF_gen/runF_gen (filters never touch the generator, so the history theorems hold "
+                  "for the filter-aware runner); the decision table attrWritten (rows from the property text) + docTags "
+                  "(documentation) vs regenerated _auto_tags (autoTags_doc) replace the by-construction reading of applies; "
+                  "transformTabindex_exact states the counter for every int (0 blocks, >0 advances, <0 handed out and kept: "
+                  "KF-C19-b exactly).  Settings keys other than the six auto_* toggles (filters, domid_format, tabindex, "
+                  "ordered_attributes, markup_wrapper) are NOT consumed when given on a tag: they are ordinary attributes and are "
+                  "rendered (observed, modelled, not a finding: the property's options are the toggles).  "
+                  "Earlier rounds: (1) the resolution theorem toggle_resolution needs noShadowingAuto — now exactly the condition under which code and "
                   "rule agree on the level readings (codeResolve_ne_rule: where it fails they differ), refuted in general by "
                   "C19_full_fails (KF-C19-a); (2) resolution is proved for _pop_toggle's return value; decision => attribute is "
                   "proved against the applies table for name (equation), id/for/tabindex (skips + applies) and the skip half of "
@@ -786,11 +827,13 @@ class C19(Property):
                   "only (KF-C19-b: negative 'stop numbers' are test-pinned); the VALUE of the counter (explicit per level, "
                   "inherited by begin, +1 per positive hand-out at the current level, outer counter resumes after end) is "
                   "kept by the oracle's own reference and compared with generator['tabindex'] after every op (clause "
-                  "tabindex-counter; generator-reads-back for the other keys); filters not modelled beyond consuming auto_filter")
+                  "tabindex-counter; generator-reads-back for the other keys, `filters` included by identity of the list object)")
     technique = ("invariant (flat-copied frames = levels replayed) by induction over histories; decision-table resolver; "
                  "tables YES/NO/MAYBE, _default_context, _auto_tags regenerated from the source")
     trusted_base = [
-        "filters (auto_filter / filters=) are not modelled beyond consuming the option; markup_wrapper is always Markup",
+        "filters are the finite descriptions of harness/props/c19.py:make_filter (delete / set attributes, keep / append / "
+        "replace / drop contents, append the tag name, optional `tags`); a filter that mutates the context or raises is not "
+        "modelled; markup_wrapper is always Markup",
         "str.lower() replaced by ASCII lower-casing for YES/NO/MAYBE lookups (equivalence checked by the extractor over all code points)",
     ]
     assumptions = [
@@ -801,7 +844,9 @@ class C19(Property):
     rule = ("histories of 1-30 Generator calls (1, 2, 3, 4, 6, 8, 12, 12, 20 or 30; the `ops=` tag is capped at 12): begin/end/set/[]=/update (nesting depth <= 5, unbalanced end() and unknown option "
             "names interleaved) and tag calls (7 tag properties + tag(), input types, every subset of pre-existing "
             "name/value/id/for/tabindex/checked/selected, tag-level options); option values from on/off/auto/True/False/Maybe/"
-            "unknown text/upper-case/Kelvin-sign spellings.  non-trivial = at least one tag call made under >= 2 explicit levels or "
+            "unknown text/upper-case/Kelvin-sign spellings; 45 % of the histories carry 1-3 named filter lists of 0-3 filters "
+            "given at generator / begin / set / []= / update level with auto_filter at every level incl. the tag; every 50th case "
+            "is from the hostile `filters`-value stream (str / int / bool / Maybe).  non-trivial = at least one tag call made under >= 2 explicit levels or "
             "a tag-level option, or a rejected call; distinct = distinct canonical case JSON")
     exhaustive_note = ("every combination of (generator setting, block setting, set() inside the block, tag option) in "
                        "{absent,on,off,auto} for each of the five auto_* options on a tag the transform applies to, with and "
